@@ -405,7 +405,7 @@ func (x *c15scenX) intFunc(fd *ast.FuncDecl, recursive bool) string {
 			tty := strings.Repeat("Int × ", len(intParams)-1) + "Int"
 			call := loop + " fuel " + strings.Join(intParams, " ")
 			fmt.Fprintf(&b, "/-- regenerated from `%s` func `%s`: the `for %s` loop; `none` = fuel exhausted -/\n", rel, name, x.src(fs.Cond))
-			fmt.Fprintf(&b, "def %s : Nat → %s→ Option (%s)\n  | 0, %s => none\n  | fuel + 1, %s =>\n", loop,
+			fmt.Fprintf(&b, "def %s : Nat → %sOption (%s)\n  | 0, %s => none\n  | fuel + 1, %s =>\n", loop,
 				strings.Repeat("Int → ", len(intParams)), tty, strings.Join(c15scenUnderscores(len(intParams)), ", "), strings.Join(intParams, ", "))
 			fmt.Fprintf(&b, "    if %s then\n%s\n    else some %s\n\n", x.expr(fs.Cond, nil), x.block(fs.Body.List, "      ", call), tuple)
 			var fuel []string
